@@ -176,7 +176,17 @@ def run(ctx):
                 first = next((e for e in p.events if e.kind in ("READ", "READALL") and e["stream"] == STREAM and
                               any(x == e["res"] for x in N.walk(data))), None)
                 # the first byte of the region: position before the first read that contributes to data (loop-carried data: the tell before the loop)
-                off = t.val(new["args"][2])
+                offarg = new["args"][2]
+                # len(<element-wise transform of what was read>) is the length of what was read (C15.R7's recogniser)
+                lens = [x for x in N.walk(offarg) if x[0] == "call" and x[1] == ("free", "len") and len(x[2]) == 1]
+                if lens:
+                    from . import C15 as _C15
+                    reads = [e["res"] for e in p.events if e.kind in ("READ", "READALL") and e["stream"] == STREAM]
+                    for x in lens:
+                        for rd in reads:
+                            if x[2][0] != rd and N.contains(x[2][0], rd) and _C15.length_of(N.rebuild(x[2][0], {rd: _C15.IN}), None) == "same":
+                                offarg = N.rebuild(offarg, {x: ("call", ("free", "len"), (rd,), ())})
+                off = t.val(offarg)
                 region_start = None
                 if first is None and carried:
                     first = next(e for e in p.events if e.kind == "READ" and e["stream"] == STREAM and carried[0][2] in e.loops)
@@ -185,7 +195,7 @@ def run(ctx):
                     if first.loops:
                         lp = next(e for e in p.events if e.kind == "LOOP" and e["lid"] == first.loops[0])
                         region_start = t.pos_before(lp)
-                ctx.ob("C08.R3", fi, region_start is not None and off == region_start and new["args"][2][0] == "tell",
+                ctx.ob("C08.R3", fi, region_start is not None and off == region_start,
                        "the offset is a tell of the outer stream at the region's first byte (offset %s, region starts at %s)" % (N.show(off), N.show(region_start) if region_start else "?"), key="offset value")
             # ---- R2 extents
             fin = t.final
@@ -246,6 +256,9 @@ def run(ctx):
     # left where it was (shared with C09.R2)
     sub = _Ctx("C09", ctx.tier, ctx.root, model=ctx.model)
     sub._summ = summariser(ctx)
+    sub._shared_into_c08 = True
+    if getattr(ctx, "_shared_into_c09", False):
+        return
     C09.run(sub)
     for e in sub.errors:
         ctx.error("shared C09 rules: " + e)
